@@ -181,8 +181,17 @@ fn judge(out: &mut Out, stratum: &str, prog: &V, env: &V, sp: Spell, new_mode: b
             let mut sig = None;
             let unimpl = r.consensus.contains("unimplemented operator") != r.stepping.contains("unimplemented operator");
             let legacy_msg = r.stepping.starts_with("Fail(\"Unexpected head form in clvm") || r.stepping.starts_with("Fail(\"bad argument list");
-            let stepping_fails_where_clvm_returns = r.consensus.starts_with("value") && r.stepping.starts_with("Fail(");
-            if has_headpair_or_improper(prog) || ((legacy_msg || stepping_fails_where_clvm_returns) && r.consensus.starts_with("value") && data_has_headpair_or_improper(prog)) {
+            let _ = legacy_msg;
+            // the legacy syntax may sit in quoted code that `a` runs, or be built at run time: (a X E) where X evaluates to a
+            // program with a list in operator position / an improper argument list
+            let built_at_run_time = match prog.proper_list() {
+                Some(l) if l.len() == 3 && l[0] == V::A(vec![2]) => match consensus_run_cap(&l[1], env, 100_000_000) {
+                    Outcome::Val(code) => has_headpair_or_improper(&code) || data_has_headpair_or_improper(&code),
+                    _ => false,
+                },
+                _ => false,
+            };
+            if has_headpair_or_improper(prog) || (r.consensus.starts_with("value") && (data_has_headpair_or_improper(prog) || built_at_run_time)) {
                 // ((X) . args) "operator applied to unevaluated args" syntax and non-nil argument list
                 // terminators: clvm accepts them, the stepping evaluator does not implement them
                 sig = Some("stepping:legacy-head-list-or-improper-arglist".to_string());
